@@ -128,9 +128,17 @@ func (s *Service) ScheduleJob(ctx context.Context,
 			finaliseJob(job)
 			job.active.Store(false)
 		case <-time.After(time.Until(runtime)):
-			// It is possible that the job is already active, so check that first before proceeding.
+			// It is possible that the job has been claimed by a request to run it immediately, in which
+			// case its run signal has been sent or is about to be: take it and run the job here, as
+			// nothing else will.
 			if job.active.Load() {
-				s.log.Trace().Str("job", name).Time("scheduled", runtime).Msg("Already running; job not running")
+				<-job.runCh
+				s.log.Trace().Str("job", name).Time("scheduled", runtime).Msg("Run triggered; job running")
+				monitorJobStartedOnSignal(class)
+				jobFunc(ctx)
+				s.log.Trace().Str("job", name).Time("scheduled", runtime).Msg("Job complete")
+				finaliseJob(job)
+				job.active.Store(false)
 				break
 			}
 			s.jobsMutex.Lock()
